@@ -3,7 +3,7 @@
    permutation, stability) and their refinement by the representation-level operations. *)
 From Coq Require Import List Arith ZArith Bool Lia ZifyBool Sorting.Permutation Sorting.Sorted.
 From Muscle Require Import Cont.QueueModel Cont.QueueLemmas Cont.QueueInv Cont.QueueOps1 Cont.QueueEnsure
-  Cont.QueueOps2 Cont.QueueOps3.
+  Cont.QueueOps2 Cont.QueueOps3 Cont.QueueSortCS.
 Import ListNotations.
 Local Open Scope nat_scope.
 
@@ -175,24 +175,78 @@ Qed.
 Lemma sort_items_spec ow q bk f t : inv ow sq q ->
   inv ow sq (sort_items q bk f t) /\ abs (sort_items q bk f t) = l0_sort bk (abs q) f t.
 Proof.
-  intros I. unfold sort_items. apply write_all_spec; [assumption|]. rewrite l0_sort_length, abs_length. reflexivity.
+  intros I. unfold sort_items. rewrite sort_cs_is_l0_sort.
+  apply write_all_spec; [assumption|]. rewrite l0_sort_length, abs_length. reflexivity.
+Qed.
+
+(* the compaction loop after the items 0 .. k-1 have been read *)
+Lemma rsd_loop_spec ow q k : inv ow sq q -> 0 < cnt q -> k < cnt q ->
+  let s := fold_left rsd_step (seq 1 k) (q, 1) in
+  inv ow sq (fst s) /\ cnt (fst s) = cnt q /\ 1 <= snd s <= S k /\
+  rev (firstn (snd s) (abs (fst s))) = fold_left dedup_step (firstn (S k) (abs q)) [] /\
+  skipn (S k) (abs (fst s)) = skipn (S k) (abs q).
+Proof.
+  intros I Hc. induction k as [|k IH]; intros Hk.
+  - cbn [seq fold_left fst snd]. split; [assumption|]. split; [reflexivity|]. split; [lia|]. split; [|reflexivity].
+    destruct (abs q) as [|x t] eqn:E; [apply (f_equal (@length Z)) in E; rewrite abs_length in E; cbn in E; lia|]. reflexivity.
+  - rewrite seq_S, fold_left_app. cbn [fold_left Nat.add].
+    destruct (IH ltac:(lia)) as (I1 & C1 & W1 & F1 & S1).
+    destruct (fold_left rsd_step (seq 1 k) (q, 1)) as [g w]. cbn [fst snd] in *.
+    assert (V : getu g (S k) = nth (S k) (abs q) 0%Z).
+    { rewrite <- (nth_abs g (S k) 0%Z) by lia.
+      replace (nth (S k) (abs g) 0%Z) with (nth 0 (skipn (S k) (abs g)) 0%Z) by (rewrite nth_skipn'; f_equal; lia).
+      rewrite S1, nth_skipn'. f_equal. lia. }
+    rewrite (firstn_S_snoc (abs q) (S k)) by (rewrite abs_length; lia). rewrite fold_left_app. cbn [fold_left].
+    rewrite <- F1.
+    assert (Fw : firstn w (abs g) = firstn (w - 1) (abs g) ++ [getu g (w - 1)]).
+    { replace w with (S (w - 1)) at 1 by lia. rewrite (firstn_S_snoc (abs g) (w - 1)) by (rewrite abs_length; lia).
+      rewrite nth_abs by lia. reflexivity. }
+    rewrite Fw at 1. rewrite rev_app_distr. cbn [rev app dedup_step].
+    assert (S2 : skipn (S (S k)) (abs g) = skipn (S (S k)) (abs q)).
+    { replace (S (S k)) with (S k + 1) by lia.
+      rewrite <- (skipn_skipn' 1 (S k) (abs g)), <- (skipn_skipn' 1 (S k) (abs q)), S1. reflexivity. }
+    unfold rsd_step. rewrite V. destruct (Z.eqb (nth (S k) (abs q) 0%Z) (getu g (w - 1))) eqn:E; cbn [fst snd].
+    + split; [assumption|]. split; [assumption|]. split; [lia|]. split; [|assumption].
+      rewrite Fw at 1. rewrite rev_app_distr. reflexivity.
+    + replace (1 + S k) with (S (S k)) by lia.
+      assert (G : forall g', inv ow sq g' -> cnt g' = cnt q -> firstn (w + 1) (abs g') = firstn w (abs g) ++ [nth (S k) (abs q) 0%Z] ->
+              skipn (S (S k)) (abs g') = skipn (S (S k)) (abs q) ->
+              inv ow sq g' /\ cnt g' = cnt q /\ 1 <= w + 1 <= S (S k) /\
+              rev (firstn (w + 1) (abs g')) = nth (S k) (abs q) 0%Z :: getu g (w - 1) :: rev (firstn (w - 1) (abs g)) /\
+              skipn (S (S k)) (abs g') = skipn (S (S k)) (abs q)).
+      { intros g' J1 J2 J3 J4. split; [assumption|]. split; [assumption|]. split; [lia|]. split; [|assumption].
+        rewrite J3, Fw, !rev_app_distr. reflexivity. }
+      destruct (w <? S k) eqn:E2.
+      * apply G.
+        -- apply inv_setu; [assumption|lia].
+        -- rewrite cnt_setu. exact C1.
+        -- rewrite (abs_setu ow sq) by (assumption || lia).
+           apply (list_ext _ _ 0%Z); autorewrite with nthdb; cbn [length]; [lia|].
+           intros i Hi. autorewrite with nthdb. cbn [length]. dif; fin.
+        -- rewrite (abs_setu ow sq) by (assumption || lia). rewrite <- S2.
+           apply (list_ext _ _ 0%Z); autorewrite with nthdb; [reflexivity|].
+           intros i Hi. autorewrite with nthdb. dif; fin.
+      * assert (w = S k) by lia. subst w. apply G; try assumption.
+        replace (S k + 1) with (S (S k)) by lia.
+        rewrite (firstn_S_snoc (abs g) (S k)) by (rewrite abs_length; lia). f_equal. f_equal.
+        rewrite nth_abs by lia. exact V.
 Qed.
 
 Lemma remove_sorted_dups_spec ow q : inv ow sq q ->
   let r := remove_sorted_dups ow jk sq q in
   inv ow sq (fst r) /\ abs (fst r) = dedup_adj (abs q) /\ snd r = cnt q - length (dedup_adj (abs q)).
 Proof.
-  intros I r. subst r. unfold remove_sorted_dups. destruct (cnt q =? 0) eqn:E; cbn [fst snd].
-  - rewrite (abs_cnt0 q) by lia. split; [assumption|]. split; [reflexivity|]. cbn. lia.
-  - set (keep := dedup_adj (abs q)).
-    pose proof (dedup_adj_length (abs q)) as HL. fold keep in HL. rewrite abs_length in HL.
-    destruct (write_from_spec sq ow keep q 0 I ltac:(lia)) as (J1&J2&_).
-    pose proof (write_from_abs sq ow keep q 0 I ltac:(lia)) as J3.
-    set (q2 := write_from q 0 keep) in *.
-    destruct (ensure_size_spec jk sq ow q2 (length keep) true 0 false J1) as (K1&K2&_).
-    split; [assumption|]. split; [|reflexivity].
-    rewrite K2, l0_resize_shrink by (rewrite abs_length; lia). rewrite J3. cbn [firstn app Nat.add].
-    replace (length keep) with (length keep + 0) at 1 by lia. rewrite firstn_app_2. cbn [firstn]. apply app_nil_r.
+  intros I r. subst r. unfold remove_sorted_dups. destruct (cnt q =? 0) eqn:E.
+  - cbn [fst snd]. rewrite (abs_cnt0 q) by lia. split; [assumption|]. split; [reflexivity|]. cbn. lia.
+  - destruct (rsd_loop_spec ow q (cnt q - 1) I ltac:(lia) ltac:(lia)) as (I1 & C1 & W1 & F1 & _).
+    destruct (fold_left rsd_step (seq 1 (cnt q - 1)) (q, 1)) as [g w]. cbn [fst snd] in *.
+    replace (S (cnt q - 1)) with (cnt q) in * by lia.
+    rewrite (firstn_abs_all q (cnt q)) in F1 by lia.
+    destruct (ensure_size_spec jk sq ow g w true 0 false I1) as (K1 & K2 & _).
+    assert (D : dedup_adj (abs q) = firstn w (abs g)) by (unfold dedup_adj; rewrite <- F1, rev_involutive; reflexivity).
+    split; [assumption|]. split.
+    + rewrite K2, l0_resize_shrink by (rewrite abs_length; lia). symmetry. exact D.
+    + rewrite D, firstn_length', abs_length. lia.
 Qed.
 
 Lemma insert_sorted_spec ow q x : inv ow sq q ->
